@@ -24,5 +24,6 @@ func init() {
 	blsx.Runners["ecdsa"] = wrap(keyx.RunECDSA)
 	blsx.Runners["keygen"] = wrap(keyx.RunKeyGen)
 	blsx.Runners["keygen-leading-zeros"] = wrap(func(c json.RawMessage, seed int64) keyx.Result { return keyx.RunLeadingZeros(seed, false) })
+	blsx.Runners["keygen-structured-scalars"] = wrap(func(c json.RawMessage, seed int64) keyx.Result { return keyx.RunStructuredScalars(seed) })
 	blsx.Runners["keygen-leading-zeros-deep"] = wrap(func(c json.RawMessage, seed int64) keyx.Result { return keyx.RunLeadingZeros(seed, true) })
 }
